@@ -27,12 +27,16 @@ ASSUMPTIONS = [
 
 
 def round_to(be, fr):
+    """the amount nearest to the rational (f64: correctly rounded; decimal: truncated to as many
+    fractional digits <= 18 as keep the coefficient inside i128)"""
     if be == "f64":
         return kc.f64_round(fr)
-    n = 18
-    v = fr * 10 ** n
-    q = v.numerator // v.denominator
-    return kc.dec_tok(q, n)
+    for n in range(18, -1, -1):
+        v = fr * 10 ** n
+        q = v.numerator // v.denominator
+        if abs(q) < 2 ** 126:
+            return kc.dec_tok(q, n)
+    return kc.dec_tok(0, 0)
 
 
 def neighbours(be, tok):
@@ -40,7 +44,7 @@ def neighbours(be, tok):
         return [kc.f64_next(tok, -1), tok, kc.f64_next(tok, 1)]
     c, n = tok.split("/")
     c, n = int(c), int(n)
-    return [kc.dec_tok(c - 1, n), tok, kc.dec_tok(c + 1, n)]
+    return [kc.dec_tok(c - 1, n), tok, kc.dec_tok(c + 1, n)]          # |c| < 2^126, so the neighbours fit i128 too
 
 
 def run(ctx):
